@@ -16,6 +16,7 @@ mod elig;
 mod blsx;
 mod c01;
 mod c02;
+mod c06;
 mod c08;
 mod c09;
 mod wire;
@@ -28,6 +29,7 @@ fn main() {
     let code = match which.as_str() {
         "C01" => c01::run(&args),
         "C02" => c02::run(&args),
+        "C06" => c06::run(&args),
         "C08" => c08::run(&args),
         "C09" => c09::run(&args),
         "C08-timing" => {
